@@ -45,7 +45,8 @@ def write_mc(spec, name, conf, consts, export=True):
 
 def run_config(run, exe, spec, name, conf, consts, prop, workers=3, env=None, cap_tours=None):
     tla, cfg = write_mc(spec, name, conf, consts)
-    g, info = tlcgraph.run_tlc_graph(tla, cfg, workers=workers, cwd=MC, timeout=3000)
+    # conf["_sim"] = (behaviours per worker, depth): configuration too large for breadth-first search, behaviours from TLC's simulation mode
+    g, info = tlcgraph.run_tlc_graph(tla, cfg, workers=workers, cwd=MC, timeout=3000, simulate=conf.get("_sim"), sim_seed=seed())
     if not info["ok"] and not info["violated"]:
         raise ToolFailure("TLC failed on %s/%s: %s" % (spec, name, "\n".join(info["log"][-40:])))
     tours = tlcgraph.build_tours(g, cap_tours=cap_tours)
